@@ -75,6 +75,12 @@ def run(tier, seed):
     _sv, _sn, _sst = _sq.run_stories(PROP, fxv, rd, "inflightstory", 2 if tier == "quick" else 10,
                                      "an acknowledged delete (flush Ok, clean close) is not durable: the key is back after the reopen")
     viol = viol + _sv
+    # story: flush() is called while a background batch (woken by the periodic coordinator) is in the worker's hand and
+    # that batch's record writes fail: an Ok from flush() means a crash right after it recovers the key
+    import seqengine as _sqa
+    _av, _an, _ast = _sqa.run_stories(PROP, fxv, rd, "ackstory", 2 if tier == "quick" else 8,
+                                      "flush() acknowledged while the worker still had the batch in hand")
+    viol = viol + _av
     return {"level": "model_checking", "coverage": cov, "violations": viol,
             "assumptions": ["device observer sees every write and fsync (checked by the byte-for-byte replay in selftest)",
                             "block-granular loss/reordering of un-synced writes; journal slots and metadata copies atomic",
